@@ -267,7 +267,7 @@ def main():
             for style in (("array", "scalar") if bits == 0 or args.thorough else (("array", "scalar")[(k + j) % 2],)):
                 items.append((t.to_json(), style, bits, args.seed + k, timeout, style == "array" or bits == 0))
     if args.thorough:
-        for k, t in enumerate(families.E(3, 4) + families.E(4, 4)[::5] + families.random_topos(args.seed, 40)):
+        for k, t in enumerate(families.E(4, 4) + families.E(3, 4, maxN=5)[::3] + families.random_topos(args.seed, 40)):
             items.append((t.to_json(), ("array", "scalar")[k % 2], FLAGSETS_FULL[k % len(FLAGSETS_FULL)], args.seed + k, timeout, True))
     if args.only:
         items = [it for it in items if args.only in it[0]["name"]]
@@ -278,7 +278,7 @@ def main():
         "program = (topology, input style, positivity-option vector); per program: all NumPy-symbolic paths (exception / shape / one finiteness query "
         "per output component that has a definedness condition), 12 CasADi compilations (SX,MX x compact 0,1,2 x more_out) and finiteness queries on the "
         "level-0 IR incl. reported flows; non-trivial = query not closed syntactically",
-        {"bounds": {"family": "K (18 curated) x {4 quick | 8 thorough option vectors} x input styles" + (" + E(3,4) + every 5th of E(4,4) + R(seed,40)" if args.thorough else ""),
+        {"bounds": {"family": "K (20 curated) x {4 quick | 8 thorough option vectors} x input styles" + (" + E(4,4) + every 3rd of E(3,4) with up to 5 segments + R(seed,40)" if args.thorough else ""),
                     "domain": "parameters > 0, rho_max > rho_crit, 1+alpha > 0; states/controls/disturbances >= 0 INCLUDING exact zeros; the model's own 0/0 points excluded"},
          "finiteness_conditions": extra.get("finiteness_conditions", 0), "casadi_compilations": extra.get("compilations", 0),
          "plain_concrete_runs": extra.get("concrete_runs", 0),
